@@ -870,12 +870,9 @@ def direct_perf(rng, op):
         p = {'bins': rng.choice([0, 1, 2, 8, 32, 127, rng.randint(0, 127)]),
              'max_shift_quarters': rng.choice([1, 2, 4, 4, 8]), 'instrument': rng.choice([None, None, 0])}
         ms = res * p['max_shift_quarters']
-    # 'wide': canonical in the wider reading (a pitch may sound twice at once, un-nested): the oracle demands the
-    # identity, but the proved boolean canonical_perf (which forbids re-opening an open pitch) is not asserted
     canon = True
     if rng.random() < 0.3:
-        notes = _doubled_notes(rng, s0, unit, p['bins'])
-        canon = 'wide'
+        notes = _doubled_notes(rng, s0, unit, p['bins'])        # canonical_perf_w covers them
     else:
         notes = _poly_notes(rng, s0, unit, rng.randint(1, 9))
     ev = encode_perf(notes, p['bins'], ms, s0)
@@ -1056,10 +1053,10 @@ def corpus():
     # one pitch sounding twice at once, un-nested (NOTE_OFFs pair first-in-first-out): (a) equal start, two bins;
     # (b) different starts + another pitch ending on the step of the first NOTE_OFF
     out.append({'op': 'perf', 'input': {'events': encode_perf([(60, 10, 2, 5), (60, 120, 2, 7)], 8, 100, 0), 'start': 0,
-                                        'res': 100, 'p': dict(fp, max_shift=100), 'r': dict(pr), 'canon': 'wide'}})
+                                        'res': 100, 'p': dict(fp, max_shift=100), 'r': dict(pr), 'canon': True}})
     out.append({'op': 'perf', 'input': {'events': encode_perf([(60, 100, 0, 6), (64, 100, 1, 6), (60, 100, 2, 8)], 0, 100, 0),
                                         'start': 0, 'res': 100, 'p': dict(fp, bins=0, max_shift=100), 'r': dict(pr),
-                                        'canon': 'wide'}})
+                                        'canon': True}})
     out.append({'op': 'perf', 'input': {'events': [[1, 60], [3, 100], [3, 5], [2, 60]], 'start': 0, 'res': 250,
                                         'p': dict(fp, bins=0, max_shift=100), 'r': dict(pr), 'canon': True}})
     out.append({'op': 'metric', 'input': {'events': [[4, 1], [1, 60], [3, 2], [2, 60]], 'start': 8, 'res': 4,
